@@ -1,16 +1,18 @@
 #!/usr/bin/env python3
-"""usage: tools/seedstore.py <Cxx> <mN> <caught-by text> [<first-missed note>]
+"""usage: [SEED_ROUND=3] tools/seedstore.py <Cxx> <mN> <caught-by text> [<first-missed note>]
 Copies a confirmed seeded change from /tmp/seed-<Cxx>-out/<mN>/ to /verif/seeded/<Cxx>-<mN>/ with meta.json."""
 import json, os, shutil, sys, re
 pid, m, caught = sys.argv[1], sys.argv[2], sys.argv[3]
 note = sys.argv[4] if len(sys.argv) > 4 else ""
-src = f"/tmp/seed-{pid}-out/{m}"
-dst = f"/verif/seeded/{pid}-{m}"
+rnd = os.environ.get("SEED_ROUND", "")          # "" = round 1, "2", "3", ...
+src = f"/tmp/seed{rnd}-{pid}-out/{m}"
+tag = (f"r{rnd}" if rnd else "") + m
+dst = f"/verif/seeded/{pid}-{tag}"
 os.makedirs(dst, exist_ok=True)
 for f in os.listdir(src):
     if f == "patch.diff" or f.endswith("_test.go") or f == "README.md" or f.endswith(".go"):
         shutil.copy(os.path.join(src, f), os.path.join(dst, f))
-common = f"/tmp/seed-{pid}-out/common"
+common = f"/tmp/seed{rnd}-{pid}-out/common"
 if os.path.isdir(common):
     for f in os.listdir(common):
         shutil.copy(os.path.join(common, f), os.path.join(dst, f))
@@ -22,7 +24,7 @@ meta = {
     "what_it_breaks_and_needs": readme[:3000],
     "confirmed_by_lead": "tools/seedconfirm.sh: scratch git worktree of /repo; `go build ./...`; `go test -vet=off -count=1 ./...` passes with the change; the demonstration test fails with the change and passes without it",
     "check_result": caught,
-    "how_run": f"tools/seedcheck.sh {pid} seeded/{pid}-{m}/patch.diff quick   (scratch copy of /repo with the patch applied; equivalent to git -C /repo apply; ./run.sh {pid} quick; git -C /repo checkout -- .)",
+    "how_run": f"tools/seedcheck.sh {pid} seeded/{pid}-{tag}/patch.diff quick   (scratch copy of /repo with the patch applied; equivalent to git -C /repo apply; ./run.sh {pid} quick; git -C /repo checkout -- .)",
 }
 if note:
     meta["history"] = note
